@@ -75,7 +75,8 @@ fn project_doc(variant: usize) -> Vec<ABlock> {
     if full {
         fl.insert(0, ("Z", n(3.5)));
         fl.push(("MULTIPLIER", n(2.0)));
-        fl.push(("FLOOR-HEIGHT", n(2.75)));
+        // (floor to floor, the slab included: more than the clear height written as SPACE-HEIGHT)
+        fl.push(("FLOOR-HEIGHT", n(3.25)));
     }
     d.push(blk("P01", "FLOOR", fl));
     let mut sp = vec![("SHAPE", w("POLYGON")), ("POLYGON", s("P01_Pol")), ("TYPE", w("CONDITIONED")), ("SPACE-TYPE", s("Residencial")), ("MULTIPLIER", n(3.0)), ("MULTIPLIED", n(1.0)), ("POWER", n(4.5)), ("VEEI-OBJ", n(7.0)), ("VEEI-REF", n(10.0))];
